@@ -101,6 +101,7 @@ class _Env:
         self.root = pathlib.Path(root)
         self.index_factory = G.IndexFactory(self.root)
         self.vi_factory = G.VersionIndexFactory()
+        self.wd = G.Watchdog()
         self.idents = [G.ident(i) for i in range(6)]
         self.id_index = {str(self.idents[i]): i for i in range(6)}
         self.cond_abs = self.root / "COND"
@@ -215,17 +216,18 @@ def _eval_case(env, deps, gi, opts, again, tally):
             sclass = G.structural_class(deps, executed)
         return sclass
 
-    # ---- the real functions (as cli/run.main calls them)
-    ti.load_transitive_closure(root_id)
-    try:
-        plan = env.ExecutionPlanner(ctx).create_plan_for(root_id, run_again=again)
-    except Exception as ex:  # noqa: BLE001 -- observation about the code under test
-        if G.raised_by_harness(ex):
-            raise
+    # ---- the real functions (as cli/run.main calls them).  The pre-load is not
+    # under test here (rt_taskindex): if it misbehaves the planner still gets its
+    # tasks through `get_task`, which materialises them on demand.
+    env.wd.call(ti.load_transitive_closure, root_id)
+    planner = env.ExecutionPlanner(ctx)
+    plan, ex = env.wd.call(planner.create_plan_for, root_id, run_again=again)
+    if ex is not None:
         for name in NAMES:
             tally.ev(name, False)
+        nonterm = isinstance(ex, G.NonTermination)
         tally.fail(P2, size, {
-            "clause": "P2", "class": "planner-raised-" + type(ex).__name__,
+            "clause": "P2", "class": "non-termination" if nonterm else "planner-raised-" + type(ex).__name__,
             "input": the_input(), "expected": "a plan (the closure is complete and acyclic)",
             "observed": "%s: %s" % (type(ex).__name__, ex)})
         return
@@ -515,6 +517,8 @@ def _worker(arg):
             gos, optl = blocks[b]
             g, o = divmod(item - offsets[b], len(optl))
             deps, opts = gos[g], optl[o]
+            if env.wd.exhausted:
+                break
             if deps is not last_deps:
                 last_deps, last_gi = deps, _graph_info(deps)
             for again in (False, True):
@@ -525,7 +529,7 @@ def _worker(arg):
                     tally.sample(name, _case_json(deps, opts, True))
     finally:
         env.vi_factory.close()
-    return tally
+    return tally, not env.wd.exhausted
 
 
 def run(tier, seed):
@@ -535,13 +539,14 @@ def run(tier, seed):
         tallies = G.run_sharded(_worker, {"tier": tier, "root": root}, nshards=G.n_processes() * 8)
     finally:
         shutil.rmtree(root, ignore_errors=True)
-    total = G.merge_tallies(tallies, NAMES)
+    total = G.merge_tallies([t for t, _ in tallies], NAMES)
+    complete = all(c for _, c in tallies)
     wall = time.time() - t0
     out = []
     for name in NAMES:
         c = total.get(name)
         out.append(result(
-            name, PROPS[name], FUNCTION, _scope(tier), exhaustive=True,
+            name, PROPS[name], FUNCTION, _scope(tier), exhaustive=complete,
             evaluations=c["ev"], distinct_nontrivial=c["nt"], rule=RULES[name],
             failures=total.failures(name), samples=c["samples"], wall_s=wall,
             n_failures=c["nf"]))
